@@ -51,6 +51,10 @@ pub struct FontInfo {
     /// Per table: the (offset, width) of every primitive read the library makes while walking
     /// the pristine table (recorded through the verif hook on first use).
     pub consumed: std::cell::RefCell<BTreeMap<String, Rc<Vec<(usize, u8)>>>>,
+    /// Long repeated-pattern texts are not combined with the run-growing surgeries: shaping is
+    /// quadratic in the run length, so 8000 characters times the permitted growth (64x) would
+    /// take minutes and be indistinguishable from a hang.
+    pub long_text_ok: bool,
 }
 
 impl FontInfo {
@@ -386,6 +390,7 @@ impl Generator {
                 .cloned()
                 .unwrap_or_default(),
             consumed: std::cell::RefCell::new(BTreeMap::new()),
+            long_text_ok: true,
         });
         self.info.insert(rel.to_string(), info.clone());
         Ok(info)
@@ -1686,6 +1691,7 @@ fn gen_install(rng: &mut Rng, info: &FontInfo, prop: &str) -> Option<(FontInfo, 
             modified.gpos_features.clear();
         }
         if want_expansion {
+            modified.long_text_ok = false;
             modified.gsub_features = vec![
                 (crate::trace::tag_from_str("ccmp"), vec![0]),
                 (crate::trace::tag_from_str("liga"), vec![0]),
@@ -1734,7 +1740,7 @@ fn gen_char(rng: &mut Rng, info: &FontInfo) -> u32 {
 fn gen_text(rng: &mut Rng, info: &FontInfo) -> String {
     // Rarely: a long run made of a short pattern (syllable machines, reordering and mark
     // attachment see thousands of clusters, or one cluster thousands of characters long).
-    if rng.below(1000) < 2 {
+    if info.long_text_ok && rng.below(1000) < 2 {
         let unit_len = 1 + rng.usize_below(4);
         let unit = gen_text_short(rng, info, unit_len);
         if !unit.is_empty() {
